@@ -16,6 +16,7 @@ import (
 	"path/filepath"
 	"sort"
 	"strings"
+	"sync"
 	"time"
 
 	"github.com/youchainhq/go-youchain/common"
@@ -129,6 +130,7 @@ func initKeys() {
 }
 
 type stubChain struct {
+	mu     sync.Mutex // the pool's loop goroutine reads the head once at start-up
 	blocks map[common.Hash]*types.Block
 	states map[common.Hash]*state.StateDB
 	head   *types.Block
@@ -136,8 +138,17 @@ type stubChain struct {
 	proc   core.Processor
 }
 
-func (bc *stubChain) Processor() core.Processor  { return bc.proc }
-func (bc *stubChain) CurrentBlock() *types.Block { return bc.head }
+func (bc *stubChain) Processor() core.Processor { return bc.proc }
+func (bc *stubChain) CurrentBlock() *types.Block {
+	bc.mu.Lock()
+	defer bc.mu.Unlock()
+	return bc.head
+}
+func (bc *stubChain) setHead(b *types.Block) {
+	bc.mu.Lock()
+	bc.head = b
+	bc.mu.Unlock()
+}
 func (bc *stubChain) GetBlock(hash common.Hash, number uint64) *types.Block {
 	if b, ok := bc.blocks[hash]; ok && b.NumberU64() == number {
 		return b
@@ -345,7 +356,7 @@ func (e *env) exec(op *Op) (*Obs, *core.VerifSnapshot, []string) {
 		}
 	case "reorg":
 		if op.Reset {
-			e.chain.head = e.blocks[op.New]
+			e.chain.setHead(e.blocks[op.New])
 		}
 		if op.Reset && op.ViaLoop && !op.HaveDirty {
 			e.pool.VerifRequestReset(hdr(op.Old), hdr(op.New))
@@ -1312,14 +1323,20 @@ func main() {
 	logging.Root().SetHandler(logging.DiscardHandler())
 	core.VerifSetEvictionInterval(1000 * time.Hour)
 	initKeys()
-	detectGapFix()
+	if mode != "stress" && mode != "locks" {
+		detectGapFix()
+	}
 	switch mode {
 	case "gen":
 		doGen(*seed, *n, *out, *corpus)
 	case "replay":
 		replay(*file)
+	case "locks":
+		locksCmd(*out)
+	case "stress":
+		stress(*seed, *n, *out, *file == "with-TransactionsNumber")
 	default:
-		fmt.Println("usage: c20 gen|replay")
+		fmt.Println("usage: c20 gen|replay|locks|stress")
 		os.Exit(2)
 	}
 }
